@@ -128,7 +128,15 @@ def objects(draw, max_sections=5):
         size = len(expand(sections[si - 1][1]))
         symbols.append([f"sym{q}", si, draw(st.integers(0, max(0, size - 1))), draw(st.sampled_from(["func", "func", "func", "object"]))])
     desc = {"bits": bits, "sections": sections, "symbols": symbols}
-    if draw(st.integers(0, 2)) == 0:
+    if bits == 64 and symbols and draw(st.integers(0, 2)) == 0:
+        # relocations against the symbols (calls to externals, rip-relative data references): shown by `objdump -r`
+        rl = []
+        for _ in range(draw(st.integers(1, 6))):
+            si = draw(st.integers(1, nsec))
+            size = len(expand(sections[si - 1][1]))
+            rl.append([si, draw(st.integers(0, max(0, size - 1))), draw(st.integers(1, len(symbols))), draw(st.sampled_from([2, 4, 1, 10, 11])), draw(st.sampled_from([-4, 0, 8]))])
+        desc["relocs"] = sorted(rl)
+    if "relocs" not in desc and draw(st.integers(0, 2)) == 0:
         # a linked file (executable or shared object) instead of a relocatable one: every section at a load address, so addresses
         # do not restart per section, run to 8 / 16 digits, and branch targets are absolute
         base = draw(st.sampled_from([0x1000, 0x401000, 0x7F12345000, 0xFFFFFFFF81000000, 0xFFFFFFFFFFFFF000] if bits == 64 else [0x1000, 0x8048000, 0xC0100000, 0xFFFFF000]))
@@ -159,4 +167,4 @@ def build_object(desc):
         for sec in secs:
             addrs.append(a & ((1 << desc["bits"]) - 1))
             a += ((len(sec[1]) + 15) & ~15) + ln["gap"]
-    return make_elf(secs, [tuple(s) for s in desc["symbols"]], bits=desc["bits"], addrs=addrs, etype=etype)
+    return make_elf(secs, [tuple(s) for s in desc["symbols"]], bits=desc["bits"], addrs=addrs, etype=etype, relocs=[tuple(r) for r in desc.get("relocs", [])])
